@@ -972,6 +972,9 @@ func (r *Runner) preMarks(mc *model.Conn, req *model.Req) {
 		if n := len(req.Data); n >= 10238 && n <= 10242 {
 			r.mark("custom:near-limit")
 		}
+		if len(req.Data) > 1<<20 {
+			r.mark("custom:huge")
+		}
 		seen := map[uint32]bool{}
 		for _, p := range req.Recipients {
 			if seen[p] {
